@@ -116,6 +116,81 @@ def leaks_of(repo, fields):
     return out
 
 
+FRESH_CALLS = {"dict", "list", "set", "tuple", "frozenset", "defaultdict", "OrderedDict", "sorted", "deepcopy"}
+
+
+def _is_fresh_expr(repo, e):
+    """an expression that evaluates to a newly created container / object (or to an immutable constant)"""
+    if isinstance(e, (ast.Dict, ast.List, ast.Set, ast.Tuple, ast.ListComp, ast.SetComp, ast.DictComp, ast.Constant)):
+        return True
+    if isinstance(e, ast.Call):
+        f = e.func
+        name = f.id if isinstance(f, ast.Name) else (f.attr if isinstance(f, ast.Attribute) else None)
+        if name in FRESH_CALLS:
+            return True
+        if isinstance(f, ast.Attribute) and f.attr == "copy" and not e.args:
+            return True   # shallow copy: a new outer container (inner containers are covered by the element rule)
+        if isinstance(f, ast.Name) and any(c.name == f.id for c in repo.classes.values()):
+            return True   # constructor call of a class of the package
+        if isinstance(f, ast.Attribute) and isinstance(f.value, ast.Name) and f.value.id in ("collections", "copy") and f.attr in FRESH_CALLS:
+            return True
+    if isinstance(e, ast.IfExp):
+        return _is_fresh_expr(repo, e.body) and _is_fresh_expr(repo, e.orelse)
+    return False
+
+
+def stores_of(repo, fields, nested):
+    """ownership discipline of container fields: (i) a store to the whole field `X._f = e` needs a fresh e;
+    (ii) for fields whose elements are containers themselves (`nested`), an element store `X._f[k] = e` and the
+    argument of update()/setdefault() need a fresh e.  -> {field: [(qualname, line, what)]} of the stores that
+    are NOT fresh"""
+    out = {f: [] for f in fields}
+
+    def base_field(t):
+        depth = 0
+        while isinstance(t, ast.Subscript):
+            t = t.value
+            depth += 1
+        return (_field_of(t), depth)
+
+    for q, fi in repo.funcs.items():
+        for n in ast.walk(fi.node):
+            if isinstance(n, (ast.Assign, ast.AnnAssign)) and getattr(n, "value", None) is not None:
+                targets = n.targets if isinstance(n, ast.Assign) else [n.target]
+                for t in targets:
+                    if isinstance(t, (ast.Tuple, ast.List)):
+                        for tt in t.elts:
+                            f, d = base_field(tt)
+                            if f in out:
+                                out[f].append((q, n.lineno, "tuple assignment to %s" % ast.unparse(tt)))
+                        continue
+                    f, d = base_field(t)
+                    if f not in out:
+                        continue
+                    if d == 0 and not _is_fresh_expr(repo, n.value):
+                        out[f].append((q, n.lineno, "%s = %s" % (ast.unparse(t), ast.unparse(n.value))))
+                    elif d == 1 and f in nested and not _is_fresh_expr(repo, n.value):
+                        out[f].append((q, n.lineno, "%s = %s" % (ast.unparse(t), ast.unparse(n.value))))
+            elif isinstance(n, ast.Call) and isinstance(n.func, ast.Attribute) and n.func.attr in ("update", "setdefault"):
+                f, d = base_field(n.func.value)
+                if f in nested and d == 0:
+                    args = n.args[1:] if n.func.attr == "setdefault" else n.args
+                    for a_ in args:
+                        if not _is_fresh_expr(repo, a_):
+                            out[f].append((q, n.lineno, ast.unparse(n)))
+    # nested defs are reported once (under the innermost function)
+    for f in out:
+        seen = set()
+        keep = []
+        for (q, l, w) in sorted(out[f], key=lambda x: -len(x[0])):
+            if (l, w) in seen:
+                continue
+            seen.add((l, w))
+            keep.append((q, l, w))
+        out[f] = sorted(keep)
+    return out
+
+
 def run_scans(repo, spec):
     """spec = {"writers": {field: [allowed qualnames]}, "leaks": {field: [[qualname, how-prefix], ...]}}
     -> list of dict(name, ok, detail)"""
@@ -131,6 +206,14 @@ def run_scans(repo, spec):
         extra = [(q, l, h) for (q, l, h) in lk[f] if not any(q == a[0] and h.startswith(a[1]) for a in allowed)]
         res.append({"name": "scan:no-leak:%s" % f, "ok": not extra, "found": lk[f],
                     "detail": "escapes of %s: %s%s" % (f, lk[f], ("; NOT among the recorded ones: %s" % extra) if extra else "")})
+    if spec.get("fresh_stores"):
+        fs = spec["fresh_stores"]
+        st = stores_of(repo, fs["fields"], set(fs.get("nested", [])))
+        for f in fs["fields"]:
+            allowed = fs.get("allowed", {}).get(f, [])
+            extra = [(q, l, w) for (q, l, w) in st[f] if not any(q == a[0] and w == a[1] for a in allowed)]
+            res.append({"name": "scan:fresh-store:%s" % f, "ok": not extra, "found": st[f],
+                        "detail": "stores to %s that do not create a new container: %s%s" % (f, st[f], ("; NOT among the recorded ones: %s" % extra) if extra else "")})
     return res
 
 
@@ -140,3 +223,4 @@ if __name__ == "__main__":
     print(writers_of(r, ["_attributes", "_records", "_id_map", "_bundles", "_namespaces"]))
     for f, v in leaks_of(r, ["_attributes", "_records", "_id_map", "_bundles", "_namespaces", "_uri_map"]).items():
         print(f, v)
+    print(stores_of(r, ["_attributes", "_records", "_id_map", "_bundles", "_namespaces", "_uri_map", "_rename_map", "_prefix_renamed_map"], {"_attributes", "_id_map"}))
